@@ -8,6 +8,7 @@ line is a machinery failure.
 from __future__ import annotations
 
 import json
+import os
 import re
 from pathlib import Path
 
@@ -88,6 +89,13 @@ def _validate_one(module, tag, traces, *, constants, workers, timeout, extra_env
             break
         except tlc.TLCError as exc:
             msg = str(exc)
+            m_see = re.search(r"\(see ([^)]+)\)", msg)
+            if m_see and os.path.exists(m_see.group(1)):
+                # workers' PrintT lines interleave with the error report: search everything after the first "Error:"
+                full = open(m_see.group(1), errors="replace").read()
+                k0 = full.find("Error:")
+                if k0 >= 0:
+                    msg = full[k0:]
             m_t = re.search(r"/\\ tid = (\d+)", msg)
             m_l = re.search(r"/\\ l = (\d+)", msg)
             if "Overflow" not in msg or not m_t:
